@@ -245,7 +245,9 @@ def check_module(ctx, s, idx, case):
 def required_cells(tier):
     return ['parse:returned', 'parse:DoctestParseError(SyntaxError)', 'parse:DoctestParseError(IncompleteParseError)',
             'extract:warned-and-empty', 'extract:example-parses', 'module:neighbours-ok:auto',
-            'module:neighbours-ok:google', 'module:neighbours-ok:freeform', 'origin:fuzz', 'origin:damaged']
+            'module:neighbours-ok:google', 'module:neighbours-ok:freeform', 'origin:fuzz', 'origin:damaged'] + \
+        ['broken-by-construction:' + k for k in BROKEN_FRAGMENTS] + ['broken-shape:single-statement',
+                                                                      'broken-shape:statement-with-want']
 
 
 def run_case(ctx, idx, with_module):
@@ -263,8 +265,69 @@ def run_case(ctx, idx, with_module):
         ctx.sample({'string': s, 'origin': origin, 'parser': 'DoctestParseError'}, limit=3)
 
 
+# ---------------------------------------------------------------- broken by construction
+
+BROKEN_FRAGMENTS = {
+    # a directive comment with unbalanced parentheses
+    'directive-extra-close': '# xdoctest: +SKIP)',
+    'directive-unclosed': '# xdoctest: +REQUIRES(module:os',
+    'directive-unclosed-doctest': '# doctest: +ELLIPSIS(',
+}
+
+
+def broken_shapes(fr):
+    """where the fragment sits: the statement's position in its chunk, its shape, the docstring around it"""
+    return {
+        'single-statement': '>>> x = 1  %s' % fr,
+        'own-line-then-statement': '>>> %s\n>>> x = 1' % fr,
+        'second-of-two': '>>> y = 0\n>>> x = 1  %s' % fr,
+        'first-of-two': '>>> x = 1  %s\n>>> y = 0' % fr,
+        'statement-with-want': '>>> print(1)  %s\n1' % fr,
+        'multi-line-last': '>>> x = [1,\n...      2]  %s' % fr,
+        'multi-line-first': '>>> x = [1,  %s\n...      2]' % fr,
+        'between-prose': 'Prose.\n\n>>> x = 1  %s\n\nmore prose' % fr,
+        'google-block': 'Summary.\n\nExample:\n    >>> x = 1  %s\n' % fr,
+        'own-line-only': '>>> %s' % fr,
+        'after-a-want': '>>> print(0)\n0\n>>> x = 1  %s' % fr,
+    }
+
+
+def check_broken_by_construction(ctx):
+    """docstrings whose doctest syntax is broken by construction: a warning and no example, whatever the
+    parser's internal phases make of them"""
+    import io
+    import contextlib
+    from xdoctest import core
+    for fname, fr in sorted(BROKEN_FRAGMENTS.items()):
+        for sname, doc in sorted(broken_shapes(fr).items()):
+            for style in ('freeform', 'google', 'auto'):
+                if style == 'google' and sname != 'google-block':
+                    continue
+                ctx.evaluation()
+                ctx.nontrivial(('broken', doc, style))
+                case = {'kind': 'broken-by-construction', 'fragment': fname, 'shape': sname, 'style': style, 'doc': doc}
+                try:
+                    with warnings.catch_warnings(record=True) as wl, contextlib.redirect_stdout(io.StringIO()):
+                        warnings.simplefilter('always')
+                        exs = list(core.parse_docstr_examples(doc, style=style, callname='broken'))
+                except Exception as ex:
+                    ctx.violation('escape-extract', 'parse_docstr_examples(style=%s) raised %r on a docstring with a malformed '
+                                  'directive (%s, %s)\n--- docstring ---\n%s' % (style, ex, fname, sname, doc), case)
+                    continue
+                if exs or not wl:
+                    ctx.violation('broken-accepted', 'a docstring whose directive comment is malformed (%s) in shape %r yields '
+                                  '%d example(s) and %d warning(s) under style=%s; expected a warning and no example'
+                                  '\n--- docstring ---\n%s' % (fname, sname, len(exs), len(wl), style, doc), case)
+                    continue
+                ctx.cell('broken-by-construction:' + fname)
+                ctx.cell('broken-shape:' + sname)
+
+
 def run_shard(ctx):
     warnings.simplefilter('ignore')
+    if ctx.shard == 0:
+        check_broken_by_construction(ctx)
+        warnings.simplefilter('ignore')
     n = ctx.pick(20000, 400000)
     nmod = ctx.pick(1500, 20000)
     for idx in ctx.my_indices(n):
@@ -273,6 +336,9 @@ def run_shard(ctx):
 
 def replay(case, ctx):
     warnings.simplefilter('ignore')
+    if case.get('kind') == 'broken-by-construction':
+        check_broken_by_construction(ctx)
+        return
     c = dict(case)
     c.pop('src', None)
     check_string(ctx, case['string'], case['origin'], c)
